@@ -339,8 +339,13 @@ def apply_forced_config() -> None:
             m.TRACE_LOGGING = config.TRACE_LOGGING
 
 
+_N_MODULES = [0, 0]
+
+
 def reset_all() -> None:
     """Per-path reset of every process-global registry / cache of pyoak."""
+    import sys
+
     if not _STATE_BASELINE:
         import pyoak.match.pattern  # noqa: F401
         import pyoak.match.xpath  # noqa: F401
@@ -348,6 +353,14 @@ def reset_all() -> None:
         import pyoak.visitor  # noqa: F401
 
         _scan_module_state()
+        _N_MODULES[0] = sum(1 for n_ in sys.modules if n_.startswith("pyoak"))
+    elif _N_MODULES[1] != len(sys.modules):
+        # modules of the library imported since (the legacy family): their state joins the baseline
+        _N_MODULES[1] = len(sys.modules)
+        n_now = sum(1 for n_ in sys.modules if n_.startswith("pyoak"))
+        if n_now != _N_MODULES[0]:
+            _N_MODULES[0] = n_now
+            _scan_module_state()
     _restore_module_state()
     from pyoak import config
     from pyoak.node import NODE_REGISTRY
